@@ -259,6 +259,67 @@ func runLocal(depth, shard, of int) localResult {
 		sw := sweep("local", true)
 		res.Histories, res.Checks, res.Failures = res.Histories+sw.Histories, res.Checks+sw.Checks, append(res.Failures, sw.Failures...)
 	}
+	if shard == 1%of {
+		rs := restartSweep(dir, depth > 3)
+		res.Histories, res.Checks, res.Failures = res.Histories+rs.Histories, res.Checks+rs.Checks, append(res.Failures, rs.Failures...)
+	}
+	return res
+}
+
+// restartSweep: the job is stopped and started again between two calls of a history (the seen-store is closed and
+// re-opened on the same directory, as controler.Stop / Start and a new process do): what the first run recorded is
+// seen in the second. Every pair (thorough: triple, restart after the first call) of the six one-node call shapes
+// over two URL classes; judged by the same reference model, which knows nothing of restarts.
+func restartSweep(dir string, triples bool) localResult {
+	var res localResult
+	alpha := callAlphabet()
+	var shapes []int
+	for ci, c := range alpha {
+		if len(c.Nodes) == 1 && (urlAlpha[c.Nodes[0].URL].Class == "x" && c.Nodes[0].URL == 0 || urlAlpha[c.Nodes[0].URL].Class == "v") {
+			shapes = append(shapes, ci)
+		}
+	}
+	restart := func() {
+		seencheck.Close()
+		seencheck.VerifReset()
+		if err := seencheck.Start(dir); err != nil {
+			hkit.EngineError("re-opening the seen-store: %v", err)
+		}
+	}
+	n := 0
+	run := func(hist []int) {
+		n++
+		res.Histories++
+		ns := fmt.Sprintf("r%d", n)
+		ref := refModel{}
+		var h []callSpec
+		for i, ci := range hist {
+			c := alpha[ci]
+			h = append(h, c)
+			want, _ := ref.check(c, true)
+			got, sts := runCall(c, ns)
+			res.Checks++
+			if want[0] != got[0] {
+				res.Failures = append(res.Failures, seqFailure{Sig: fmt.Sprintf("local:%s:%s:after-a-restart-of-the-job", map[bool]string{true: "refetched-although-seen", false: "skipped-although-not-seen"}[got[0]], c.Nodes[0].Pos),
+					Store: "local-restart", History: append([]callSpec{}, h...),
+					Detail: fmt.Sprintf("call %d (%s %q), the seen-store having been closed and re-opened after call 1: reference says built=%v, Zeno: built=%v (status %s)", i+1, c.Nodes[0].Pos, urlAlpha[c.Nodes[0].URL].Text, want[0], got[0], sts[0])})
+				return
+			}
+			if i == 0 {
+				restart()
+			}
+		}
+	}
+	for _, a := range shapes {
+		for _, b := range shapes {
+			run([]int{a, b})
+			if triples {
+				for _, c := range shapes {
+					run([]int{a, b, c})
+				}
+			}
+		}
+	}
 	return res
 }
 
@@ -370,8 +431,9 @@ func setupHQ() *hqFake {
 // with the reference.
 func replayHistory(f *seqFailure) (string, bool) {
 	seedsChecked := false
+	restartDir := ""
 	switch f.Store {
-	case "local":
+	case "local", "local-restart":
 		dir, err := os.MkdirTemp(os.Getenv("VERIF_TMP"), "c08-replay-")
 		if err != nil {
 			hkit.EngineError("%v", err)
@@ -384,6 +446,9 @@ func replayHistory(f *seqFailure) (string, bool) {
 		}
 		defer seencheck.Close()
 		seedsChecked = true
+		if f.Store == "local-restart" {
+			restartDir = dir
+		}
 	default:
 		fake := setupHQ()
 		fake.reversed = f.Store == "hq-reversed-answer"
@@ -396,6 +461,13 @@ func replayHistory(f *seqFailure) (string, bool) {
 	}
 	ref := refModel{}
 	for i, c := range f.History {
+		if restartDir != "" && i == 1 { // the job was stopped and started again after the first call
+			seencheck.Close()
+			seencheck.VerifReset()
+			if err := seencheck.Start(restartDir); err != nil {
+				hkit.EngineError("re-opening the seen-store: %v", err)
+			}
+		}
 		want, _ := ref.check(c, seedsChecked)
 		got, sts := runCall(c, "replay")
 		for k := range got {
